@@ -132,6 +132,8 @@ pub struct WRun {
     pub errors_before_finish: usize,
     /// frame-parameter setters that returned Ok for a rectangle outside the canvas / of zero size (C19: invalid parameters are errors)
     pub illegal_accepted: Vec<String>,
+    /// refused frame-parameter setters (counted in errors_before_finish too): a refused setter changes nothing, the history still supplies its images
+    pub setter_refusals: usize,
 }
 
 fn enc_err(e: &png::EncodingError) -> String {
@@ -143,7 +145,7 @@ fn enc_err(e: &png::EncodingError) -> String {
 
 /// Execute a writer history against `sink`.  `finish`: call Writer::finish (else drop).
 pub fn run_writer(cfg: &WCfg, ops: &[WOp], sink: Sink, finish: bool, rng: &mut Rng) -> WRun {
-    let mut run = WRun { results: vec![], finish: "-".into(), panicked: None, images: vec![], errors_before_finish: 0, illegal_accepted: vec![] };
+    let mut run = WRun { results: vec![], finish: "-".into(), panicked: None, images: vec![], errors_before_finish: 0, illegal_accepted: vec![], setter_refusals: 0 };
     let bits = samples(cfg.color) * cfg.depth as usize;
     let r = guarded(|| {
         let mut e = png::Encoder::new(sink.clone(), cfg.w, cfg.h);
@@ -174,6 +176,7 @@ pub fn run_writer(cfg: &WCfg, ops: &[WOp], sink: Sink, finish: bool, rng: &mut R
         run.results.push("write_header ok".into());
         let (mut fw, mut fh) = (cfg.w, cfg.h);
         let (mut fx, mut fy) = (0u32, 0u32);
+        let mut first_started = false;   // an image has been written, or a stream writer for one has been created
         let mut w = Some(w);
         for op in ops {
             if let WOp::IntoStream { size, parts, fraction } = op {
@@ -215,6 +218,10 @@ pub fn run_writer(cfg: &WCfg, ops: &[WOp], sink: Sink, finish: bool, rng: &mut R
                         if *a == 0 || *b == 0 || fx as u64 + *a as u64 > cfg.w as u64 || fy as u64 + *b as u64 > cfg.h as u64 {
                             run.illegal_accepted.push(format!("set_frame_dimension({}, {}) at offset ({}, {}) on a {}x{} canvas returned Ok", a, b, fx, fy, cfg.w, cfg.h));
                         }
+                        // the first image of the stream is the IDAT image: it has to cover the canvas
+                        if !first_started && (*a != cfg.w || *b != cfg.h) {
+                            run.illegal_accepted.push(format!("set_frame_dimension({}, {}) before the first image of a {}x{} canvas returned Ok (the IDAT image must cover the canvas)", a, b, cfg.w, cfg.h));
+                        }
                         fw = *a; fh = *b; "ok".into()
                     }
                     Err(er) => enc_err(&er),
@@ -223,6 +230,9 @@ pub fn run_writer(cfg: &WCfg, ops: &[WOp], sink: Sink, finish: bool, rng: &mut R
                     Ok(()) => {
                         if *a as u64 + fw as u64 > cfg.w as u64 || *b as u64 + fh as u64 > cfg.h as u64 {
                             run.illegal_accepted.push(format!("set_frame_position({}, {}) for a {}x{} frame on a {}x{} canvas returned Ok", a, b, fw, fh, cfg.w, cfg.h));
+                        }
+                        if !first_started && (*a != 0 || *b != 0) {
+                            run.illegal_accepted.push(format!("set_frame_position({}, {}) before the first image returned Ok (the IDAT image must cover the canvas)", a, b));
                         }
                         fx = *a; fy = *b; "ok".into()
                     }
@@ -249,10 +259,11 @@ pub fn run_writer(cfg: &WCfg, ops: &[WOp], sink: Sink, finish: bool, rng: &mut R
                     // absurd sizes: offer an empty buffer (the call must refuse it, not overflow)
                     let data = if n > (1 << 22) { vec![] } else { rng.bytes(n) };
                     let r = match stream {
-                        None => w.write_image_data(&data).map_err(|er| enc_err(&er)),
+                        None => { let r = w.write_image_data(&data).map_err(|er| enc_err(&er)); if r.is_ok() { first_started = true; } r }
                         Some(sz) => match w.stream_writer_with_size(*sz) {
                             Err(er) => Err(enc_err(&er)),
                             Ok(mut sw) => {
+                                first_started = true;
                                 let mut pos = 0;
                                 let mut pi = 0;
                                 let mut err = None;
@@ -281,6 +292,7 @@ pub fn run_writer(cfg: &WCfg, ops: &[WOp], sink: Sink, finish: bool, rng: &mut R
             };
             if res.starts_with("err") {
                 run.errors_before_finish += 1;
+                if matches!(op, WOp::FrameDim(..) | WOp::FramePos(..)) { run.setter_refusals += 1; }
             }
             run.results.push(format!("{:?} {}", std::mem::discriminant(op), res).replace("Discriminant", "op"));
         }
@@ -342,6 +354,14 @@ pub fn declared_ops(cfg: &WCfg, rng: &mut Rng, allow_stream: bool, allow_subfram
         }
         if cfg.animated.is_some() {
             // sub-frames only after the image that must cover the canvas (the IDAT image)
+            // before the IDAT image the setters must refuse anything but the canvas rectangle (the image is then written full size)
+            if allow_subframes && k == 0 && cfg.w > 1 && cfg.h > 1 && rng.chance(1, 5) {
+                match rng.below(3) {
+                    0 => ops.push(WOp::FrameDim(rng.range(1, cfg.w as u64 - 1) as u32, cfg.h)),
+                    1 => ops.push(WOp::FrameDim(cfg.w, rng.range(1, cfg.h as u64 - 1) as u32)),
+                    _ => { ops.push(WOp::FrameDim(cfg.w - 1, cfg.h - 1)); ops.push(WOp::FramePos(1, 1)); }
+                }
+            }
             if allow_subframes && k >= 1 && rng.chance(1, 2) {
                 let fw = rng.range(1, cfg.w as u64) as u32;
                 let fh = rng.range(1, cfg.h as u64) as u32;
@@ -392,7 +412,7 @@ pub fn run(a: &Args) {
             o.violation(viol("encoder-panicked", "encoder-panicked", detail(m)));
             continue;
         }
-        if run.errors_before_finish > 0 || (finish && run.finish != "ok") {
+        if run.errors_before_finish > run.setter_refusals || (finish && run.finish != "ok") {
             // the sequence was not accepted: not in the scope of this property (C19 looks at it)
             o.count("not-accepted");
             continue;
